@@ -714,12 +714,12 @@ def units_C15(tier, seed):
 # ------------------------------------------------------------------------------------------------ C16
 INFO['C16'] = {
     'bounds': 'footprint of field_view::at for storage orders {row-major, Morton pdep, Morton portable, Hilbert} x {no interpolator, '
-              'nearest, linear} x N<=3 (Hilbert 2) plus 4-D row-major linear (the generic N>=4 branch), array-backed, grids of 2..3 cells per axis with symbolic contents, symbolic in-domain '
+              'nearest, linear} x N<=3 (Hilbert 2) plus 4-D row-major linear (the generic N>=4 branch), array-backed; the wrapper layers affine, nearest, backup, clamp, shuffle, covariant_cast, dereference in one depth-8 array-backed stack (symbolic matrix, box, default, contents), constant and identity backends; grids of 2..3 cells per axis with symbolic contents, symbolic in-domain '
               'coordinate: no store to the view, the field, the buffer or any non-stack object; no mutable global, thread_local, atomic or '
               'static-local guard touched; result identical through a second copy of the view; distinct coordinates map to disjoint cells '
               'for ALL extents (the C01 injectivity units). No bound on the number of threads: no conflicting access exists, so no '
               'interleaving needs exploring',
-    'outside': 'user code that reconstructs or destroys the field concurrently; non-array backends; N>3',
+    'outside': 'user code that reconstructs or destroys the field concurrently; CUDA backends; N>4',
     'cuts': 'none',
     'assumptions': ['data-race freedom follows from the absence of conflicting accesses (happens-before argument independent of the schedule, stated)'],
 }
@@ -752,6 +752,11 @@ def units_C16(tier, seed):
     if th:
         U += unit('c16_footprint_mortonport_nn_4_f2', 'c16_footprint.cpp', f'footprint_h<2,1,4,{VEC["f2"]},2>()', sites=[1, 2, 3], weight=400,
                   cfg={'query_timeout_ms': 300000, 'sym_cells_cap': 1024}, timeout=3000)
+    # wrapper layers (affine, nearest, backup, clamp, shuffle, cast, dereference) in one deep array-backed stack; constant and identity
+    U += unit('c16_wrappers_deep', 'c16_wrappers.cpp', 'deep_h()', sites=[1, 2, 3], flavours=('rel', 'dbg'), weight=300,
+              cfg={'query_timeout_ms': 300000}, timeout=1800)
+    U += unit('c16_wrappers_constant', 'c16_wrappers.cpp', 'constant_h()', sites=[1, 2, 3], flavours=('rel', 'dbg'))
+    U += unit('c16_wrappers_identity', 'c16_wrappers.cpp', 'identity_h()', sites=[1, 2, 3], flavours=('rel', 'dbg'))
     for u in U:
         u['native'] = 'tsan'
     # writers to distinct coordinates: disjoint cells for all extents
